@@ -60,6 +60,19 @@ func (e effectSite) KeyIn(table map[string]string) string {
 			return e.keyFor(fn)
 		}
 	}
+	// an unexported method turned into a plain function (or the other way round) keeps its entry:
+	// same package, same bare name, same callee
+	for _, fn := range e.Chain {
+		for k := range table {
+			i := strings.Index(k, " -> ")
+			if i < 0 || k[i:] != e.keyFor(fn)[len(fn):] {
+				continue
+			}
+			if bareFuncKey(k[:i]) == bareFuncKey(fn) && !ast.IsExported(bareFuncKey(fn)[strings.LastIndex(bareFuncKey(fn), ".")+1:]) {
+				return k
+			}
+		}
+	}
 	return e.Key()
 }
 
@@ -159,4 +172,13 @@ func checkEffectTable(c *Ctx, r *Repo, rule string, pkgs []string, allowed map[s
 		}
 	}
 	return seen
+}
+
+// bareFuncKey drops the receiver type from a function key: "config.RootConfig.subPackages" -> "config.subPackages".
+func bareFuncKey(k string) string {
+	parts := strings.Split(k, ".")
+	if len(parts) >= 3 {
+		return strings.Join(parts[:len(parts)-2], ".") + "." + parts[len(parts)-1]
+	}
+	return k
 }
